@@ -3,7 +3,7 @@ parallel under time and memory caps, classifies results, replays failures native
 import json, os, re, subprocess, sys, time, shutil
 
 KANI_MEM_KB = 14_000_000     # per process
-HARNESS_TIMEOUT_Q = 420
+HARNESS_TIMEOUT_Q = 900
 HARNESS_TIMEOUT_T = 1500
 
 
